@@ -4,6 +4,7 @@ mod c04;
 mod c06;
 mod c07;
 mod syn;
+mod c08;
 mod c09;
 mod c10;
 mod c12;
@@ -95,6 +96,7 @@ fn main() {
       "C14" => c14::replay(&j["case"], j["kind"].as_str().unwrap_or("")),
       "C06" => c06::replay(&j["case"]),
       "C20" => c20::replay(&j["case"]),
+      "C08" => c08::replay(&j["case"]),
       "C02" => c02::replay(&j["case"], j["kind"].as_str().unwrap_or("")),
       "C04" => c04::replay(&j["case"]),
       "C09" => c09::replay(&j["case"]),
@@ -129,6 +131,7 @@ fn main() {
     "C10" => c10::run(tier),
     "C06" => c06::run(tier),
     "C20" => c20::run(tier),
+    "C08" => c08::run(tier),
     "C02" => c02::run(tier),
     "C04" => c04::run(tier),
     "C09" => c09::run(tier),
